@@ -288,7 +288,10 @@ def decode(data, keep_raw=False, merge=True):
             i += 1
             continue
         w = char_width(ch)
-        if merge and w == 0 and prev_cell is not None and ch not in '\t' and ord(ch) >= 0x300:
+        # a zero-width character joins the previous cell when it is painted in the same style; at a style boundary
+        # (e.g. right after a gutter or a diff marker) it stays a cell of its own, so that text can be read back by style
+        if (merge and w == 0 and prev_cell is not None and ch not in '\t' and ord(ch) >= 0x300
+                and (prev_cell.fg, prev_cell.bg, prev_cell.attrs, prev_cell.link) == (sgr.fg, sgr.bg, sgr.attrs, link)):
             prev_cell.ch += ch
             if link is not None:
                 link_text.append(ch)
